@@ -529,6 +529,20 @@ Theorem C05_explorers_complete :
 Proof. exact explorers_complete. Qed.
 Print Assumptions C05_explorers_complete.
 
+(* ... and the restriction to unsplit Writes loses nothing: every schedule of the OCI
+   system, with the Writes split in any way, that runs from "no push started" to "every push
+   done" ends in a state that an unsplit schedule reaches too, i.e. in an explored outcome
+   (big = any bound on the bytes of each reader script, as the correspondence uses) *)
+Theorem C05_split_writes_explored :
+  forall (H : str -> str -> str) big blobs ts sched st',
+    Forall (fun t => t_pc t = PStart /\ (length (stream (t_evs t)) <= S big)%nat) ts ->
+    crun H (mkC blobs ts) sched = Some st' ->
+    Forall (fun t => exists r, t_pc t = PDone r) (c_thr st') ->
+    exists is, crun H (mkC blobs ts) (map (fun i => (i, big)) is) = Some st' /\
+               forall fuel, (length is < fuel)%nat -> In st' (explore H fuel big (mkC blobs ts)).
+Proof. exact split_writes. Qed.
+Print Assumptions C05_split_writes_explored.
+
 (* the behaviour before the repair (NewVerifyReader accepted a negative Size): the
    CopyBuffer path stored the empty blob under a descriptor of size -1 *)
 Theorem C05_push_sound_refuted_negative_size :
